@@ -174,6 +174,31 @@ def run(rep):
 
     # ---- R4 field symmetry (E-MIR) --------------------------------------------------------------------------------------
     F = mir.Facts(["forc_pkg"])
+    # ---- R6 lossless serialisation of foreign types --------------------------------------------------------------------
+    # What the lock file stores is produced by Display impls of forc-pkg's source types. Foreign types they embed must be
+    # written with their lossless serialiser; formatters known to lose information are listed here with the reason.
+    LOSSY = {
+        "gix_url::Url": "gix_url::Url's Display / Debug print the literal `redacted` in place of a password (to_bstring() is the lossless form), "
+                        "so a git source whose URL carries credentials would not read back equal",
+    }
+    n6 = 0
+    for f in F.fns.values():
+        if f.crate != "forc_pkg":
+            continue
+        for bi, t in f.calls():
+            fn_full = t.get("fn", "")
+            m6 = re.search(r"fmt::rt::Argument::<'_>::new_(display|debug|lower_hex|upper_hex)::<&?(?:mut )?([\w:]+)", fn_full) or \
+                re.search(r"<([\w:]+) as (?:std|alloc)::string::ToString>::to_string", fn_full)
+            if not m6:
+                continue
+            ty = m6.group(m6.lastindex)
+            n6 += 1
+            if ty in LOSSY and not f.d.get("exp") and "Debug" not in f.name:
+                rep.ob("R6-lossless-serialisation", f"{f.name}|{ty}", False, f.file, t["ln"], f"{f.name} formats a {ty}: " + LOSSY[ty])
+    rep.ob("R6-lossless-serialisation", "forc_pkg formats no lossy foreign type", True, "forc-pkg/src", 0, f"{n6} formatter instantiations in forc_pkg inspected")
+    rep.floor("R6-lossless-serialisation", 1)
+    if n6 < 100:
+        raise AnalysisError(f"C20 R6: only {n6} formatter instantiations found in forc_pkg (extractor drift?)")
     PL = "forc_pkg::lock::PkgLock"
     fn_from = F.fn(PL + "::from_node")
     fn_to = F.fn("forc_pkg::lock::Lock::to_graph")
